@@ -40,6 +40,7 @@ def chain(*fs):
 
 JC = H.JH_COMP
 SL = H.SKEIN_LIB
+GC, GL = H.GR_COMP, H.GR_LIB
 CASES = [
     # ---- JH compressor.rs
     ("N01 jh f8_impl: second load `data.offset(2)` -> `data.offset(1)` (before the rounds)", False, "jh", JC, sub1("y.2 ^= ptr::read_unaligned(data.offset(2));", "y.2 ^= ptr::read_unaligned(data.offset(1));")),
@@ -80,6 +81,41 @@ CASES = [
     ("P06 skein bitxor: loop variables renamed, comment added", True, "skein", SL, sub1("        for (s, r) in self.as_word_array_mut().iter_mut().zip(rhs.as_word_array()) {\n            *s ^= *r;", "        for (dst, src) in self.as_word_array_mut().iter_mut().zip(rhs.as_word_array()) {\n            /* word-wise */ *dst ^= *src;")),
     ("P07 skein bitxor: `*s ^= *r` written out", True, "skein", SL, sub1("            *s ^= *r;", "            let t = *s ^ *r;\n            *s = t;")),
     ("P08 skein bytes(): via a local", True, "skein", SL, sub1("        self.as_byte_array().as_slice()", "        let view = self.as_byte_array();\n        view.as_slice()")),
+    # ---- Grøstl compressor.rs / lib.rs
+    ("N30 groestl transpose_a: shuffle_epi32 immediate 0b1101_1000 -> 0b1101_0010", False, "groestl", GC, sub1("0b1101_1000", "0b1101_0010", nth=0)),
+    ("N31 groestl round: one mask nibble", False, "groestl", GC, sub1("0x0306_0a0d_0802_0509", "0x0306_0a0d_0802_0508")),
+    ("N32 groestl submix: dropped xor (`^ t.rotl6()`)", False, "groestl", GC, sub1("a.rotl2() ^ t.rotl4() ^ t.rotl6()", "a.rotl2() ^ t.rotl4()")),
+    ("N33 groestl submix: aesenclast operands exchanged", False, "groestl", GC, sub1("_mm_aesenclast_si128(x, b0)", "_mm_aesenclast_si128(b0, x)")),
+    ("N34 groestl rounds_p_q: round-constant index 3 -> 2", False, "groestl", GC, sub1("p = round(3, p);", "p = round(2, p);")),
+    ("N35 groestl mul2: reduction byte 0x1b -> 0x1d", False, "groestl", GC, sub1("0x1b1b_1b1b_1b1b_1b1b", "0x1b1b_1b1b_1b1b_1b1d")),
+    ("N36 groestl mul2: cmpgt operands exchanged", False, "groestl", GC, sub1("_mm_cmpgt_epi8(_mm_cvtsi64_si128(0), i)", "_mm_cmpgt_epi8(i, _mm_cvtsi64_si128(0))")),
+    ("N37 groestl transpose_b: lane index i.5 -> i.4", False, "groestl", GC, sub1("_mm_unpackhi_epi64(i.1, i.5)", "_mm_unpackhi_epi64(i.1, i.4)")),
+    ("N38 groestl tf512: data.offset(2) -> data.offset(1)", False, "groestl", GC, sub1("let d2 = _mm_loadu_si128(data.offset(2));", "let d2 = _mm_loadu_si128(data.offset(1));")),
+    ("N39 groestl tf512: feed-forward xor dropped", False, "groestl", GC, sub1("    *cv = *cv ^ x;\n", "    *cv = x;\n")),
+    ("N40 groestl of512: cv.3 = x9", False, "groestl", GC, sub1("cv.3 = x11;", "cv.3 = x9;")),
+    ("N41 groestl rounds_p: constant word one digit", False, "groestl", GC, sub1("0xf0e0_d0c0_b0a0_9080u64", "0xf0e0_d0c0_b0a0_9081u64")),
+    ("N42 groestl rounds_q: mask shuffle order", False, "groestl", GC, sub1(".shuffle((1, 3, 5, 7, 0, 2, 4, 6))", ".shuffle((1, 3, 5, 7, 0, 2, 6, 4))")),
+    ("N43 groestl rounds_p: second half-round uses p[0]", False, "groestl", GC, sub1("x.0 = _mm_xor_si128(x.0, p[1]);", "x.0 = _mm_xor_si128(x.0, p[0]);")),
+    ("N44 groestl rounds_p: chunks_exact(2) -> chunks_exact(1) (loud)", False, "groestl", GC, sub1("for p in const_p.chunks_exact(2)", "for p in const_p.chunks_exact(1)")),
+    ("N45 groestl rounds_q: 12 rounds", False, "groestl", GC, sub1("let mut const_q = [_mm_cvtsi64_si128(0); 14];", "let mut const_q = [_mm_cvtsi64_si128(0); 12];")),
+    ("N46 groestl tf1024: Q applied to cv ^ q", False, "groestl", GC, sub1("*cv = *cv ^ rounds_q(q);", "*cv = *cv ^ rounds_q(*cv ^ q);")),
+    ("N47 groestl of1024: cv.4 = p.5", False, "groestl", GC, sub1("cv.4 = p.4;", "cv.4 = p.5;")),
+    ("N48 groestl X8::rotl3: last two lanes exchanged", False, "groestl", GC, sub1("self.shuffle((3, 4, 5, 6, 7, 0, 1, 2))", "self.shuffle((3, 4, 5, 6, 7, 0, 2, 1))")),
+    ("N49 groestl (X4, X4)::map: f(a.1, b.0)", False, "groestl", GC, sub1("X4(f(a.0, b.0), f(a.1, b.1),", "X4(f(a.0, b.0), f(a.1, b.0),")),
+    ("N50 groestl Compressor512::finalize_dirty forgets of512", False, "groestl", GL, sub1("        of512(&mut self.cv);\n", "")),
+    ("N51 groestl sse2::of512 runs the output transformation twice", False, "groestl", GC, sub1("        of512_impl(cv)\n", "        of512_impl(cv);\n        of512_impl(cv)\n", nth=2)),
+    ("N52 groestl transpose_a: shuffle mask byte", False, "groestl", GC, sub1("0x0d05_0901_0c04_0800", "0x0d05_0901_0c04_0008", nth=0)),
+    ("N53 groestl round: lx halves exchanged", False, "groestl", GC, sub1("let lx = _mm_set_epi64x(ff, 0);", "let lx = _mm_set_epi64x(0, ff);")),
+    ("N54 groestl of1024: feed-forward dropped", False, "groestl", GC, sub1("transpose_inv(*cv ^ rounds_p(*cv))", "transpose_inv(rounds_p(*cv))")),
+    ("N55 groestl Compressor1024::new: reads the union through a [u64; 8] prefix (loud)", False, "groestl", GL, sub1("type Block1024 = [u64; 1024 / 64];", "type Block1024 = [u64; 512 / 64];")),
+    ("N56 groestl round: l7 constant applied to lane 6", False, "groestl", GC, sub1("X8(l0, lx, lx, lx, lx, lx, lx, l7)", "X8(l0, lx, lx, lx, lx, lx, l7, lx)")),
+    ("N57 groestl transpose (1024): unpacklo_epi32(t.2, t.3) -> (t.3, t.2)", False, "groestl", GC, sub1("_mm_unpacklo_epi32(t.2, t.3)", "_mm_unpacklo_epi32(t.3, t.2)")),
+    ("P09 groestl mul2: locals renamed, statements reordered", True, "groestl", GC, sub1("        let all_1b = _mm_set1_epi64x(0x1b1b_1b1b_1b1b_1b1b);\n        let j = _mm_and_si128(_mm_cmpgt_epi8(_mm_cvtsi64_si128(0), i), all_1b);\n        let i = _mm_add_epi8(i, i);\n        _mm_xor_si128(i, j)", "        let dbl = _mm_add_epi8(i, i);\n        let zero = _mm_cvtsi64_si128(0);\n        let msb = _mm_cmpgt_epi8(zero, i);\n        let red = _mm_and_si128(msb, _mm_set1_epi64x(0x1b1b1b1b1b1b1b1b));\n        _mm_xor_si128(dbl, red)")),
+    ("P10 groestl submix: temporaries", True, "groestl", GC, sub1("    let b = a.rotl2() ^ t.rotl4() ^ t.rotl6();", "    let t4 = t.rotl4();\n    let a2 = a.rotl2();\n    let b = (a2 ^ t4) ^ t.rotl6();")),
+    ("P11 groestl round: lx computed before l0, closure parameters renamed", True, "groestl", GC, chain(sub1("    let l0 = _mm_set_epi64x(ff, (i * 0x0101_0101_0101_0101) ^ 0x7060_5040_3020_1000);\n    let lx = _mm_set_epi64x(ff, 0);", "    let lx = _mm_set_epi64x(ff, 0);\n    let l0 = _mm_set_epi64x(ff, (i * 0x0101_0101_0101_0101) ^ 0x7060_5040_3020_1000);"), sub1("let a = (a, mask).map(|x, y| _mm_shuffle_epi8(x, y));", "let a = (a, mask).map(|v, m| _mm_shuffle_epi8(v, m));"))),
+    ("P12 groestl tf512: loads reordered, `.add` for `.offset`", True, "groestl", GC, sub1("    let d0 = _mm_loadu_si128(data);\n    let d1 = _mm_loadu_si128(data.offset(1));\n    let d2 = _mm_loadu_si128(data.offset(2));\n    let d3 = _mm_loadu_si128(data.offset(3));", "    let d3 = _mm_loadu_si128(data.add(3));\n    let d1 = _mm_loadu_si128(data.offset(1));\n    let d0 = _mm_loadu_si128(data);\n    let d2 = _mm_loadu_si128(data.offset(2));")),
+    ("P13 groestl rounds_p_q: written as a chain", True, "groestl", GC, sub1("    p = round(0, p);\n    p = round(1, p);", "    p = round(1, round(0, p));")),
+    ("P14 groestl of512: field assignments reordered", True, "groestl", GC, sub1("    cv.2 = x9;\n    cv.3 = x11;", "    cv.3 = x11;\n    cv.2 = x9;")),
 ]
 
 
